@@ -324,3 +324,137 @@ Proof. vm_compute. split; reflexivity. Qed.
 Example ex_shipped_html : shipped_all nonl_feats targets_en = true /\ shipped_all nonl_feats targets_en_rebank = true /\ shipped_all nonl_feats targets_ja = true.
 Proof. vm_compute. repeat split. Qed.
 Close Scope N_scope.
+
+(* ===================== document level over GENERATED constants (appended; the 33 theorems above are unchanged) =====================
+   GenFmt.v is written by translate/gen_fmt.py from depccg/printer/html.py (_MATHML_MAIN, the three f-strings of to_mathml) and
+   depccg/printer/prolog.py (_prolog_header) on every run; FmtHtmlDoc.html_doc and FmtProlog.prolog_header are built from it, no page or
+   header text is written in a model file any more.  What the proofs need of the generated texts is re-established by computation on every
+   build (C07_html_template_facts, C07_html_fstring_facts, C07_prolog_header_declarations): a changed template either still satisfies them -
+   then the statements below hold for the changed source - or the build breaks.
+   This lifts the two restrictions noted in the comments above: "the surrounding document of _MATHML_MAIN is tied by string comparison only"
+   and "str.lower() acts on A-Z only" (now: every code point, from the interpreter's own table, except context-dependent U+03A3). *)
+Require Import GenFmt FmtHtmlDoc FmtHtmlDocProofs FmtPrologHeader FmtPrologHeaderProofs.
+
+(* --- html, the whole text of to_string(batch, format='html').  The reader (dec_html_doc) finds <body>, checks what is before it (doctype,
+   <html ..>, one well-nested <head>; <meta> is void) and after it (</body>, </html>), parses the body with the tag / text parser of
+   C07_html_parse_ser, takes the elements (<p>ID=k: words</p>, <p>Log prob=s</p>, <math ..>) apart and reads every <math> content with
+   dec_mathml_list.  It returns the sentence headers and, for every tree of every sentence in order, (sentence number, index of the tree in
+   its sentence, score text, view_html of the tree) - html_doc_views, spelled out by C07_html_doc_records; both numbers count from 1
+   (C07_numbering).  Side conditions per record: those of C07_html_text_roundtrip on the tree, and the score text has none of the five characters
+   html.escape rewrites (to_mathml does not escape it; f'{prob:.5e}' never produces one - float formatting is a trusted library function, its text is an
+   input of the model and comes back verbatim). *)
+Theorem C07_html_doc_roundtrip : forall b txt,
+  Forall (Forall (fun st : text * tree =>
+                    score_plain (fst st) = true /\ cats_wf (snd st) /\ cats_nonl (snd st) = true /\ texts_nonempty (snd st) = true)) b ->
+  html_doc b = Some txt ->
+  dec_html_doc txt = html_doc_views b /\ html_doc_views b <> None.
+Proof. exact html_doc_roundtrip. Qed.
+
+Theorem C07_html_doc_records : forall b hs rs, html_doc_views b = Some (hs, rs) ->
+  map Some rs = map (fun r : nat * nat * (text * tree) =>
+                       option_map (fun v => (fst (fst r), snd (fst r), fst (snd r), v)) (view_html (snd (snd r)))) (number_batch b) /\
+  map Some hs = map (fun g : nat * list (text * tree) =>
+                       match snd g with (_, t0) :: _ => option_map (fun w => (fst g, w)) (tree_word t0) | [] => None end) (number_groups 1 b).
+Proof. exact html_doc_views_spec. Qed.
+
+(* the facts about _MATHML_MAIN that the proof uses, computed from the generated text: the template has exactly one field and it is {0};
+   the part before the field contains <body>, and what precedes <body> is accepted by the frame check; between <body> and the field,
+   and between the field and </body>, there is only whitespace; after </body> comes </html> *)
+Theorem C07_html_template_facts :
+  fparse html_main_template = Some [FLit main_pre; FArg 0; FLit main_post] /\
+  find_split x_body_open main_pre = Some (main_before, main_lead) /\ frame_before_ok main_before = true /\
+  main_post = main_trail ++ x_body_close ++ main_tail /\ frame_tail_ok main_tail = true /\
+  h_is_ws (html_unescape main_lead) = true /\ h_is_ws (html_unescape main_trail) = true.
+Proof.
+  exact (conj main_parse (conj main_pre_split (conj main_before_ok (conj main_post_split (conj main_tail_ok
+        (conj (proj2 main_lead_text) (proj2 main_trail_text))))))).
+Qed.
+
+(* the three f-strings of to_mathml are the elements and keywords the reader looks for (math_attrs = whatever stands between `<math`
+   and `>` in the source, free of '>') *)
+Theorem C07_html_fstring_facts :
+  html_id_lits = [[cLT] ++ t_p ++ [cGT] ++ html_escape k_id; html_escape k_colon_sp; [cLT; cSL] ++ t_p ++ [cGT]] /\
+  html_prob_lits = [[cLT] ++ t_p ++ [cGT] ++ html_escape k_logprob; [cLT; cSL] ++ t_p ++ [cGT]] /\
+  html_math_lits = [[cLT] ++ t_math ++ math_attrs ++ [cGT]; [cLT; cSL] ++ t_math ++ [cGT]] /\ attrs_ok math_attrs = true.
+Proof. exact (conj gen_id_lits (conj gen_prob_lits (conj gen_math_lits math_attrs_ok))). Qed.
+
+Theorem C07_html_read_number : forall k, read_nat (show_nat k) = Some k.
+Proof. exact read_nat_show. Qed.
+
+(* --- prolog, the whole document over the generated header.  prolog_header is the generated text (first statement), so
+   C07_prolog_en_doc_roundtrip / _ja_doc_roundtrip above are statements about the source's header too; there the reader strips the header as
+   a fixed text.  dec_prolog_doc_h READS it: the lines up to the first empty line, each `:- op(P, T, (S)).` / `:- multifile n/a, ...` /
+   `:- discontiguous n/a, ...` (tokens of the clause lexer), and they must be the declarations of the format (prolog_decls: / and \ infix
+   601 xfx, ccg/2 and id/2 multifile and discontiguous; spacing is free) before the clauses are read as before. *)
+Theorem C07_prolog_header_generated : prolog_header = prolog_header_src.
+Proof. reflexivity. Qed.
+
+Theorem C07_prolog_en_doc_roundtrip_generated_header : forall b txt,
+  Forall (Forall (fun t => pl_okb_en t = true)) b -> prolog_en_doc b = Some txt ->
+  dec_prolog_doc_h dec_en txt = doc_views view_prolog_en b /\ dec_prolog_doc_h dec_en txt <> None.
+Proof. exact prolog_en_doc_roundtrip_generated_header. Qed.
+
+Theorem C07_prolog_ja_doc_roundtrip_generated_header : forall b txt,
+  Forall (Forall (fun t => pl_okb_ja t = true)) b -> prolog_ja_doc b = Some txt ->
+  dec_prolog_doc_h dec_ja txt = doc_views view_prolog_ja b /\ dec_prolog_doc_h dec_ja txt <> None.
+Proof. exact prolog_ja_doc_roundtrip_generated_header. Qed.
+
+(* every printed document (any trees) starts with the declarations of the format *)
+Theorem C07_prolog_header_declarations : forall b txt, prolog_en_doc b = Some txt \/ prolog_ja_doc b = Some txt ->
+  exists ds body, dec_prolog_header txt = Some (ds, body) /\ decls_eqb ds prolog_decls = true.
+Proof. exact prolog_doc_header_decls. Qed.
+
+(* --- str.lower.  FmtProlog.lower is now: A-Z by the ASCII rule, a code point >= 128 by py_lower_table (chr(c).lower() of the running
+   interpreter for every code point it changes), anything else unchanged; outside the model only texts with a context-dependent character
+   (py_lower_contextual, found by probing the interpreter: U+03A3).  On the ASCII range the interpreter's table IS the A-Z rule; on ASCII
+   text the model is the A-Z rule and inside its domain; every character of every category string of the shipped model files is ASCII. *)
+Theorem C07_prolog_lower_table_ascii : lower_table_ascii_agrees = true.
+Proof. exact lower_table_ascii. Qed.
+
+Theorem C07_prolog_lower_ascii : forall s, asciib s = true -> lower s = lower_az s /\ lower_dom s = true.
+Proof. exact lower_ascii. Qed.
+
+Theorem C07_prolog_lower_cat_ascii : forall c, cat_asciib c = true -> cat_lower_dom c = true.
+Proof. exact cat_lower_ascii. Qed.
+
+Theorem C07_prolog_lower_shipped_ascii : shipped_chars_ascii = true.
+Proof. exact shipped_ascii. Qed.
+
+(* --- the remaining constants of the html model.  FmtHtml.v has the two templates of _mathml_subtree and the two f-strings of _mathml_cat as
+   its own texts (the theorems about mathml_subtree above compute with them).  GenFmt.v has the same four texts as the source writes them, and
+   on every build they are compared: formatting the source's templates is fmt_terminal / fmt_nonterminal (fourth argument = the bgcolor
+   attribute = the empty text), and the source's f-strings give mathml_piece.  So no text of printer/html.py is trusted as a copy any more. *)
+Theorem C07_html_tree_templates_from_source :
+  (forall w c, fformat html_terminal_template [w; c] = Some (fmt_terminal w c)) /\
+  (forall ch c r, fformat html_nonterminal_template [ch; c; r; []] = Some (fmt_nonterminal ch c r)) /\
+  (forall p, mathml_piece p = let mi := fstr html_mi_lits [html_escape (fst p)] in
+                              match html_escape (snd p) with [] => mi | f => fstr html_msub_lits [mi; f] end).
+Proof. exact (conj terminal_format (conj nonterminal_format mathml_piece_fstr)). Qed.
+
+(* ---------- non-vacuity of the document-level results ---------- *)
+Example ex_html_doc : forallb (forallb html_rec_okb) html_doc_example = true /\
+  option_map dec_html_doc (html_doc html_doc_example) = Some (html_doc_views html_doc_example) /\
+  option_map (fun v => (map fst (fst v), map (fun r : html_rec => fst (fst r)) (snd v))) (html_doc_views html_doc_example) =
+    Some ([1; 2]%nat, [(1, 1); (1, 2); (2, 1)]%nat).
+Proof. exact html_doc_example_ok. Qed.
+Example ex_html_rec_okb : forall st, html_rec_okb st = true ->
+  score_plain (fst st) = true /\ cats_wf (snd st) /\ cats_nonl (snd st) = true /\ texts_nonempty (snd st) = true.
+Proof. exact html_rec_okb_ok. Qed.
+(* a page whose <head> is not closed, and one without </html>, are not read *)
+Example ex_html_doc_frame : dec_html_doc (T "<!doctype html><html><head><body><p>ID=1: a</p></body></html>") = None /\
+  dec_html_doc (T "<!doctype html><html><head></head><body>  </body>") = None /\
+  dec_html_doc (T "<!DOCTYPE html> <html><head><meta charset='UTF-8'></head><body>  </body> </html> ") = Some ([], []).
+Proof. vm_compute. repeat split. Qed.
+Example ex_prolog_doc_h : option_map (dec_prolog_doc_h dec_en) (prolog_en_doc [[ex_pl_tree; lf c_np [97%N]]; [lf c_vp [98%N]]]) =
+  Some (doc_views view_prolog_en [[ex_pl_tree; lf c_np [97%N]]; [lf c_vp [98%N]]]) /\
+  option_map (fun x => decls_eqb (fst x) prolog_decls) (dec_prolog_header (prolog_header ++ [10%N] ++ T "ccg(1, t(np, 'a', 'a', 'a', 'a', 'a')).")) = Some true.
+Proof. vm_compute. split; reflexivity. Qed.
+(* other declarations, or the same text without the empty line after it, are not a document of the format *)
+Example ex_prolog_doc_h_strict :
+  dec_prolog_doc_h dec_en (T ":- op(600, xfx, (/))." ++ [10; 10]%N) = None /\ dec_prolog_doc_h dec_en (prolog_header ++ T "ccg(1, t(np, 'a', 'a', 'a', 'a', 'a')).") = None /\
+  dec_prolog_doc_h dec_en (prolog_header ++ [10%N]) = Some [].
+Proof. vm_compute. repeat split. Qed.
+(* U+00C9 -> U+00E9, U+0130 -> two code points, kana unchanged, ASCII by the A-Z rule; U+03A3 is outside the domain *)
+Example ex_lower : lower [201; 65; 304; 12459; 90; 91]%N = [233; 97; 105; 775; 12459; 122; 91]%N /\
+  lower_dom [201; 65; 304; 12459]%N = true /\ lower_dom [65; 931]%N = false.
+Proof. vm_compute. repeat split. Qed.
